@@ -465,6 +465,8 @@ class SetGen(object):
                 if foreign_cols and rng.random() < self.p.get('p_foreign_index', 0.3):
                     c = rng.choice(foreign_cols)
                     cm = c.module_name
+                    if not self.importable(mod, cm, c.name):
+                        continue
                     mod.need(cm, c.name)
                     self.count('index_imported')
                 else:
@@ -502,7 +504,7 @@ class SetGen(object):
                 mname, o = rng.choice(foreign)
             else:
                 break
-            if (mname, o.name) in out:
+            if (mname, o.name) in out or not self.importable(mod, mname, o.name):
                 continue
             out.append((mname, o.name))
             if mname != mod.name:
